@@ -37,3 +37,89 @@ Theorem C11_bulk_arguments :
     expected <= length lens /\ (forall n rest, lens = n :: rest -> Forall (fun l => l = n) lens).
 Proof. exact bulk_ok_iff. Qed.
 Print Assumptions C11_bulk_arguments.
+
+(* ---- interval evaluation never panics (every opcode is total on valid intervals, every tape on every valid box), and the pre-repair definitions provably did ---- *)
+From Coq Require Import Reals Lra Lia Bool.
+From FV Require Import Ops Tape Interval Related ER ERLemmas IntervalSound IntervalTotal IntervalLibm IntervalTape
+     IntervalTransform IntervalTrig IntervalRem IntervalAtan2 IntervalTotal2 IntervalTapeTotal IntervalAll.
+Import ListNotations.
+
+Theorem C11_un_total :
+  forall (rnd : er -> er) (mix : er -> er -> er) (u : uop),
+       total1 (i_un (er_fl_gen rnd mix) u).
+Proof. exact (@un_total). Qed.
+Print Assumptions C11_un_total.
+
+Theorem C11_bin_total :
+  forall (rnd : er -> er) (mix : er -> er -> er) (b : bop),
+       total2 (i_bin (er_fl_gen rnd mix) b).
+Proof. exact (@bin_total). Qed.
+Print Assumptions C11_bin_total.
+
+Theorem C11_un_valid :
+  forall (rnd : er -> er) (mix : er -> er -> er) (u : uop) (a r : interval er),
+       valid a -> i_un (er_fl_gen rnd mix) u a = Some r -> valid r.
+Proof. exact (@un_valid). Qed.
+Print Assumptions C11_un_valid.
+
+Theorem C11_bin_valid :
+  forall (rnd : er -> er) (mix : er -> er -> er) (b : bop) (x y r : interval er),
+       valid x -> valid y -> i_bin (er_fl_gen rnd mix) b x y = Some r -> valid r.
+Proof. exact (@bin_valid). Qed.
+Print Assumptions C11_bin_valid.
+
+Theorem C11_tape_no_panic :
+  forall (rnd : er -> er) (mix : er -> er -> er) (tape : list (op er)) 
+         (n : nat) (box : list (interval er)),
+       Forall valid box ->
+       reads_written (rev tape) [] ->
+       Forall ok (eval_outputs (interval_sem (er_fl_gen rnd mix)) tape n (map Some box)).
+Proof. exact (@tape_no_panic). Qed.
+Print Assumptions C11_tape_no_panic.
+
+Theorem C11_interval_tape_sound_no_panic :
+  forall (rnd : er -> er) (mix : er -> er -> er),
+       rnd_in_unit rnd ->
+       forall (tape : list (op er)) (n : nat) (pt : list er) (box : list (interval er)),
+       in_box pt box ->
+       reads_written (rev tape) [] ->
+       all_good (er_sem rnd mix) good pt (rev tape)
+         (init_state (fresh_env (er_sem rnd mix)) (fresh_out (er_sem rnd mix) n)) ->
+       Forall2
+         (fun (v : er) (o : option (interval er)) =>
+          exists i : interval er, o = Some i /\ valid i /\ encl i v)
+         (eval_outputs (er_sem rnd mix) tape n pt)
+         (eval_outputs (interval_sem (er_fl_gen rnd mix)) tape n (map Some box)).
+Proof. exact (@interval_tape_sound_no_panic). Qed.
+Print Assumptions C11_interval_tape_sound_no_panic.
+
+Theorem C11_iadd_old_none_iff :
+  forall (rnd : er -> er) (mix : er -> er -> er) (a b : interval er),
+       valid a ->
+       valid b ->
+       iadd_old (er_fl_gen rnd mix) a b = None <->
+       one_nan (er_add (lo a) (lo b)) (er_add (hi a) (hi b)).
+Proof. exact (@iadd_old_none_iff). Qed.
+Print Assumptions C11_iadd_old_none_iff.
+
+Theorem C11_iadd_old_total_refuted :
+  exists a b : interval er, valid a /\ valid b /\ iadd_old er_fl a b = None.
+Proof. exact (@iadd_old_total_refuted). Qed.
+Print Assumptions C11_iadd_old_total_refuted.
+
+Theorem C11_isub_old_total_refuted :
+  exists a b : interval er, valid a /\ valid b /\ isub_old er_fl a b = None.
+Proof. exact (@isub_old_total_refuted). Qed.
+Print Assumptions C11_isub_old_total_refuted.
+
+Theorem C11_imul_f_old_total_refuted :
+  exists (a : interval er) (c : er), valid a /\ c <> ENaN /\ imul_f_old er_fl a c = None.
+Proof. exact (@imul_f_old_total_refuted). Qed.
+Print Assumptions C11_imul_f_old_total_refuted.
+
+Theorem C11_iexp_old_half_nan_refuted :
+  exists a : interval er,
+         has_nan er_fl a = true /\
+         iexp_old er_fl a = None /\ (exists r : interval er, iexp er_fl a = Some r).
+Proof. exact (@iexp_old_half_nan_refuted). Qed.
+Print Assumptions C11_iexp_old_half_nan_refuted.
